@@ -11,11 +11,6 @@ namespace Yae
 
 /-! ## the `call` equation for a callee that is not directly a `Member` -/
 
-/-- Is the node directly a `Member`? -/
-def Expr.isMember : Expr → Bool
-  | .member .. => true
-  | _ => false
-
 theorem desugar_call_of_not_member {p : Pos} {col : Int} {callee : Expr} {args : ExprList}
     {cty : Option Ty} {res : String} {idx : Int} (h : callee.isMember = false) :
     desugar (.call p col callee args cty res idx)
